@@ -11,13 +11,18 @@ package c05
 import (
 	"bytes"
 	"fmt"
+	"runtime"
+	"sync"
+	"sync/atomic"
 	"testing"
 
 	"github.com/whatap/golib/lang/pack"
+	"github.com/whatap/golib/lang/value"
 	"pgregory.net/rapid"
 	"verif/gpack"
 	"verif/pbt"
 	"verif/ref"
+	"verif/rfl"
 )
 
 type LStep struct {
@@ -182,3 +187,182 @@ func TestLogSinkLifecycleCatalogue(t *testing.T) {
 		}
 	}
 }
+
+// ---- concurrent encoders ------------------------------------------------------------------------------
+
+// ConcEncCase: every pack is its own object, built and given its reference bytes sequentially; then the packs are
+// encoded by several goroutines at the same time (the agent encodes counters, logs and tags from different goroutines).
+type ConcEncCase struct {
+	Packs []gpack.Case `json:"packs"`
+	G     int          `json:"g"`
+	// TagHeavy: every tag-count / log-sink pack additionally gets 8-31 tags with values of 40-240 bytes (kilobytes of
+	// tag map per pack, as with container labels), so that the encoders spend their time on the tag maps
+	TagHeavy bool `json:"tag_heavy,omitempty"`
+	// Rounds > 1: every goroutine encodes its packs this many times, clearing the stored tag hash before each encoding
+	// (the hash is computed again), so that the case runs long enough for goroutines to be preempted inside the encoders
+	Rounds int `json:"rounds,omitempty"`
+}
+
+func clearTagHash(p pack.Pack) {
+	switch x := p.(type) {
+	case *pack.TagCountPack:
+		rfl.Field(x, "tagHash").SetInt(0)
+	case *pack.LogSinkPack:
+		x.TagHash = 0
+	}
+}
+
+func runConcEnc(c ConcEncCase) *pbt.Result {
+	gpack.ResetAux()
+	type item struct {
+		p            pack.Pack
+		want         []byte
+		got          []byte
+		err          interface{}
+		hashComputed bool // the pack was built with tag hash 0 and tags: Write computes the hash
+	}
+	items := make([]*item, len(c.Packs))
+	types := map[string]bool{}
+	for i, pc := range c.Packs {
+		p, recs := build(pc)
+		if c.TagHeavy {
+			var tags *value.MapValue
+			switch x := p.(type) {
+			case *pack.TagCountPack:
+				tags = x.Tags
+			case *pack.LogSinkPack:
+				tags = x.Tags
+			}
+			if tags != nil {
+				n, width := 8+i%24, 40+(i*7)%200
+				for k := 0; k < n; k++ {
+					v := make([]byte, width)
+					for j := range v {
+						v[j] = byte('a' + (i+k+j)%26)
+					}
+					tags.PutString(fmt.Sprintf("label_%d_%d", i%7, k), string(v))
+				}
+			}
+		}
+		w := ref.NewW()
+		w.I16(p.GetPackType())
+		w.Raw(refBody(p, recs))
+		items[i] = &item{p: p, want: w.B}
+		switch x := p.(type) {
+		case *pack.TagCountPack:
+			items[i].hashComputed = x.GetTagHash() == 0 && x.Tags.Size() > 0
+		case *pack.LogSinkPack:
+			items[i].hashComputed = x.TagHash == 0 && x.Tags.Size() > 0
+		}
+		types[pc.Type] = true
+	}
+	g := c.G
+	if g < 2 {
+		g = 2
+	}
+	rounds := c.Rounds
+	if rounds < 1 {
+		rounds = 1
+	}
+	var failed atomic.Bool
+	var wg sync.WaitGroup
+	var gate atomic.Int32
+	for w := 0; w < g; w++ {
+		wg.Add(1)
+		go func(w int) {
+			defer wg.Done()
+			for gate.Load() == 0 {
+			}
+			for round := 0; round < rounds && !failed.Load(); round++ {
+				for i := w; i < len(items); i += g {
+					func() {
+						defer func() {
+							if r := recover(); r != nil {
+								items[i].err = r
+								failed.Store(true)
+							}
+						}()
+						if round > 0 {
+							if !items[i].hashComputed {
+								return // a stored (generated) tag hash is written as it is; nothing to recompute
+							}
+							clearTagHash(items[i].p)
+						}
+						got := pack.ToBytesPack(items[i].p)
+						if !bytes.Equal(got, items[i].want) {
+							items[i].got = append([]byte(nil), got...)
+							failed.Store(true)
+						} else if items[i].got == nil {
+							items[i].got = items[i].want
+						}
+					}()
+				}
+			}
+		}(w)
+	}
+	// collections run meanwhile: whatever the encoders keep in pools or caches is shuffled between goroutines
+	stopGC := make(chan struct{})
+	gcDone := make(chan struct{})
+	go func() {
+		defer close(gcDone)
+		for {
+			select {
+			case <-stopGC:
+				return
+			default:
+				runtime.GC()
+			}
+		}
+	}()
+	gate.Store(1)
+	wg.Wait()
+	close(stopGC)
+	<-gcDone
+	for i, it := range items {
+		if it.err != nil {
+			return pbt.Fail("pack %d (%s): encoding panicked while %d goroutines encoded different packs: %v", i, c.Packs[i].Type, g, it.err)
+		}
+		if !bytes.Equal(it.got, it.want) {
+			k := 0
+			for k < len(it.got) && k < len(it.want) && it.got[k] == it.want[k] {
+				k++
+			}
+			return pbt.Fail("pack %d (%s): encoded by one of %d goroutines working on different packs, its bytes differ from the reference encoder at offset %d (golib …%x, reference …%x)", i, c.Packs[i].Type, g, k, clip(it.got, k), clip(it.want, k))
+		}
+	}
+	var cl []string
+	for k := range types {
+		cl = append(cl, "type="+k)
+	}
+	return &pbt.Result{NT: len(items) >= 2*g, Classes: cl}
+}
+
+var specConcEnc = pbt.Register(pbt.Spec[ConcEncCase]{
+	Prop: "C05", Name: "concurrent-encoders",
+	Rule:  "16-200 packs of the covered types (tag-count and log-sink packs with tags twice as likely), or 300-900 tag-count / log-sink packs with 8-31 extra tags of 40-240 bytes each (these by 24-64 goroutines for 20-60 rounds, the stored tag hash cleared before every encoding, with garbage collections running), are built one by one and given their reference bytes, then encoded by 2-16 goroutines at the same time, each pack by exactly one goroutine; every encoding must equal its reference bytes (encoders of different packs share nothing); non-trivial = at least two packs per goroutine; distinct by case",
+	Quick: 64, Thorough: 1200,
+	Draw: func(t *rapid.T) ConcEncCase {
+		c := ConcEncCase{G: rapid.IntRange(2, 16).Draw(t, "g")}
+		names := append(append([]string{}, bodyTypes...), "TagCountPack", "LogSinkPack", "TagCountPack", "LogSinkPack", "TagCountPack", "LogSinkPack")
+		if rapid.Bool().Draw(t, "manysmall") {
+			// thousands of small tag / log packs: the encoders spend their time in the shared paths (tag hash, headers)
+			c.TagHeavy = true
+			c.G = rapid.IntRange(24, 64).Draw(t, "gmany") // more goroutines than processors: they preempt each other
+			c.Rounds = rapid.IntRange(20, 60).Draw(t, "rounds")
+			n := rapid.IntRange(300, 900).Draw(t, "n")
+			seed := rapid.Uint64().Draw(t, "seed")
+			for i := 0; i < n; i++ {
+				c.Packs = append(c.Packs, gpack.Case{Type: []string{"TagCountPack", "LogSinkPack"}[i%2], Seed: seed + uint64(i)*0x9e3779b97f4a7c15, Len: 12})
+			}
+			return c
+		}
+		n := rapid.IntRange(16, 200).Draw(t, "n")
+		for i := 0; i < n; i++ {
+			c.Packs = append(c.Packs, gpack.Case{Type: rapid.SampledFrom(names).Draw(t, "type"), Seed: rapid.Uint64().Draw(t, "seed"), Len: rapid.SampledFrom([]int{5, 40, 400}).Draw(t, "len")})
+		}
+		return c
+	},
+	Run: runConcEnc,
+})
+
+func TestConcurrentEncoders(t *testing.T) { specConcEnc.Check(t) }
